@@ -293,7 +293,23 @@ class Ctx:
                 self.log("PROOF BROKEN:", err)
                 return False
             self.print_assumptions = self._assumptions(out)
+            if self.tier == "thorough" and os.environ.get("VERIF_NO_COQCHK") != "1":
+                self._coqchk(props_file)
             return True
+
+    def _coqchk(self, props_file):
+        """Thorough tier: re-check the compiled cone with the independent checker and list its axioms."""
+        mod = LOGICAL + "." + props_file[len("theories/"):-2].replace("/", ".")
+        t = time.time()
+        rc, out = sh(["coqchk", "-o", "-silent", "-Q", "theories", LOGICAL, mod], cwd=self.bdir, timeout=3000)
+        if rc != 0 and "Inconsistent assumptions" in out:
+            self.make(["all"], timeout=3000)
+            rc, out = sh(["coqchk", "-o", "-silent", "-Q", "theories", LOGICAL, mod], cwd=self.bdir, timeout=3000)
+        tail = out[out.find("* Theory"):] if "* Theory" in out else out[-1500:]
+        self.extra["coqchk"] = {"module": mod, "rc": rc, "wall_s": round(time.time() - t, 1), "summary": tail.strip()}
+        self.log("coqchk -o %s: rc=%d in %.0fs" % (mod, rc, time.time() - t))
+        if rc != 0:
+            self.broken.append("coqchk rejects the compiled development: " + out[-800:])
 
     def _first_error(self, out):
         lines = out.splitlines()
